@@ -7,6 +7,8 @@
    delivered, any chunking into proposals) and snapshot recoveries.  [guarded]: polls act on the follower's current
    leader index (one worker at a time - C15 - whose earlier proposals are finished); see Model/Replication.v. *)
 From Verif Require Import Model.Replication Proofs.ReplicationFacts.
+From Verif Require Import Model.Reconcile Proofs.ReconcileFacts.
+Local Close Scope N_scope.
 
 (* at every moment: follower content = leader content as of the recorded leader index (every leader entry exactly
    once, in leader order), and that index is one the leader has reached *)
@@ -69,3 +71,20 @@ Example C05_example :
               APoll nat 5 [0]; ARecover nat; ALeader nat 5; APoll nat 9 [1]] in
   f_lidx _ (s_fol _ _ s) = 5 /\ f_store _ (s_fol _ _ s) = [5; 4; 3; 2; 1].
 Proof. vm_compute. split; reflexivity. Qed.
+
+(* ---- the SET of replicated tables (replication.Manager.reconcileTables) ----
+   after one reconciliation against the leader's listing the follower has exactly the leader's tables: tables created
+   on the leader appear, tables deleted there disappear - down to none at all; nothing the leader still has is deleted
+   and nothing the follower already has is created; an equal set is left alone *)
+Theorem C05_tables_converge : forall (leader follower : list N) (x : N), In x (reconcile leader follower) <-> In x leader.
+Proof. exact reconcile_exact. Qed.
+Theorem C05_tables_converge_to_none : forall follower : list N, reconcile [] follower = [].
+Proof. exact reconcile_empty_leader. Qed.
+Theorem C05_tables_minimal_change : forall (leader follower : list N) (x : N),
+  (In x (to_delete leader follower) <-> In x follower /\ ~ In x leader) /\
+  (In x (to_create leader follower) <-> In x leader /\ ~ In x follower).
+Proof. exact reconcile_minimal. Qed.
+Theorem C05_tables_stable : forall leader : list N, reconcile leader leader = leader.
+Proof. exact reconcile_stable. Qed.
+Print Assumptions C05_tables_converge.
+Print Assumptions C05_tables_stable.
